@@ -275,4 +275,30 @@ theorem dba_amd64_wrapper_needs_exact_end :
   ⟨List.range 71, List.replicate 70 0, List.replicate 70 1, by decide +kernel, by decide +kernel,
     by decide +kernel, by decide +kernel⟩
 
+/-- `decodeFixedLenByteArray` of byte_array_amd64.go (FIXED_LEN_BYTE_ARRAY values through
+DELTA_BYTE_ARRAY on the default build: same split scan, kernel by contract — the 128-bit kernel for
+`size == 16`, the 256-bit one otherwise —, previous value reconstructed as `dst[i-size:]`, scalar loop;
+`amd64FlbaVals`, PqModel/DeltaAmd64.lean) returns the values of the portable loop whenever that loop
+accepts the lengths, every value has `size` bytes (`allSize`: prefix + suffix = size, what a column
+of that type holds) and the suffix bytes end where `src` ends. -/
+theorem flba_amd64_wrapper_eq_portable (size : Nat) (src : List Nat) (ps ss : List (BitVec 32))
+    (vs : List (List Nat)) (hl : ps.length = ss.length) (h : goJoin [] ps ss src = .ok vs)
+    (hsz : allSize size (ps.map BitVec.toNat) (ss.map BitVec.toNat))
+    (hend : (ss.map BitVec.toNat).sum = src.length) :
+    amd64FlbaVals size src (ps.map BitVec.toNat) (ss.map BitVec.toNat) = vs :=
+  amd64FlbaVals_of_goJoin size src ps ss vs hl h hsz hend
+
+example : goJoin [] [0#32, 1#32] [2#32, 1#32] [0xab, 0xcd, 0xef] = .ok [[0xab, 0xcd], [0xab, 0xef]] ∧
+    allSize 2 (([0#32, 1#32] : List (BitVec 32)).map BitVec.toNat) (([2#32, 1#32] : List (BitVec 32)).map BitVec.toNat) ∧
+    (([2#32, 1#32] : List (BitVec 32)).map BitVec.toNat).sum = [0xab, 0xcd, 0xef].length := by decide
+
+/-- The size hypothesis is needed: `DecodeFixedLenByteArray` does not check that the values have
+`size` bytes, and on a stream whose values are shorter than the declared size (70 one-byte values,
+size 2) the wrapper rebuilds a wrong previous value where the portable loop does not. -/
+theorem flba_amd64_wrapper_needs_value_size :
+    ∃ (size : Nat) (src ps ss : List Nat), validLens 0 ps ss ∧ ps.length = ss.length ∧ ss.sum = src.length ∧
+      amd64FlbaVals size src ps ss ≠ loopVals src [] 0 ps ss :=
+  ⟨2, List.range 6 ++ List.range 64, List.replicate 6 0 ++ List.replicate 64 1, List.replicate 6 1 ++ List.replicate 64 1,
+    by decide +kernel, by decide +kernel, by decide +kernel, by decide +kernel⟩
+
 end PqModel.Props.C04Delta
